@@ -252,6 +252,7 @@ int parse_instruction_65816(AsmContext *asm_context, char *instr)
   int bytes = 0;
   int i = 0;
   int src = 0, dst = 0;
+  int immediate = 0;
 
   // make lowercase
   lower_copy(instr_case, instr);
@@ -512,6 +513,7 @@ int parse_instruction_65816(AsmContext *asm_context, char *instr)
         }
 
         op = OP_IMMEDIATE16;
+        immediate = num;
 
         // value was forced with .b, .w, or .l
         if (size == 8)
@@ -927,6 +929,56 @@ int parse_instruction_65816(AsmContext *asm_context, char *instr)
     snprintf(temp, sizeof(temp), "No instruction found for addressing mode %d", op);
     print_error(asm_context, temp);
     return -1;
+  }
+
+  // Make sure all numbers are checked to be in bounds
+  switch (op)
+  {
+    case OP_IMMEDIATE8:
+      if (immediate < -128 || immediate > 0xff)
+      {
+        print_error_range(asm_context, "8-bit constant", -128, 0xff);
+        return -1;
+      }
+      break;
+    case OP_ADDRESS8:
+    case OP_INDEXED8_X:
+    case OP_INDEXED8_Y:
+    case OP_INDIRECT8:
+    case OP_INDIRECT8_LONG:
+    case OP_X_INDIRECT8:
+    case OP_INDIRECT8_Y:
+    case OP_INDIRECT8_Y_LONG:
+    case OP_SP_RELATIVE:
+    case OP_SP_INDIRECT_Y:
+      if (num < 0 || num > 0xff)
+      {
+        print_error_range(asm_context, "Address", 0, 0xff);
+        return -1;
+      }
+      break;
+    case OP_ADDRESS16:
+    case OP_INDEXED16_X:
+    case OP_INDEXED16_Y:
+    case OP_INDIRECT16:
+    case OP_INDIRECT16_LONG:
+    case OP_X_INDIRECT16:
+      if (num < 0 || num > 0xffff)
+      {
+        print_error_range(asm_context, "Address", 0, 0xffff);
+        return -1;
+      }
+      break;
+    case OP_ADDRESS24:
+    case OP_INDEXED24_X:
+      if (num < 0 || num > 0xffffff)
+      {
+        print_error_range(asm_context, "Address", 0, 0xffffff);
+        return -1;
+      }
+      break;
+    default:
+      break;
   }
 
   // fix for .b in immediate mode
